@@ -6,7 +6,7 @@ use std::sync::atomic::{AtomicBool, Ordering};
 use std::sync::{Arc, RwLock};
 use std::time::{Duration, Instant};
 
-const CONF: &str = "[request_definition]\nr = sub, obj, act\n[policy_definition]\np = sub, obj, act\n[role_definition]\ng = _, _\n[policy_effect]\ne = some(where (p.eft == allow))\n[matchers]\nm = g(r.sub, p.sub) && r.obj == p.obj && r.act == p.act\n";
+const CONF: &str = "[request_definition]\nr = sub, obj, act\n[policy_definition]\np = sub, obj, act\n[role_definition]\ng = _, _\n[policy_effect]\ne = some(where (p.eft == allow))\n[matchers]\nm = g(r.sub, p.sub) && r.obj == p.obj && r.act == p.act\nm2 = r.sub == p.sub && r.act == p.act\n";
 
 fn lcg(s: &mut u64) -> u64 {
     *s = s.wrapping_mul(6364136223846793005).wrapping_add(1442695040888963407);
@@ -71,6 +71,17 @@ fn apply<E: Enf>(rt: &tokio::runtime::Runtime, e: &mut E, op: &WOp) {
 
 static HUNG: AtomicBool = AtomicBool::new(false);
 
+// request i of the oracle: index < n is a plain request, index >= n the same values under the context {r, p, e, m2}
+fn decide<E: Enf>(e: &E, reqs: &[Vec<String>], i: usize) -> bool {
+    let n = reqs.len();
+    if i < n {
+        e.enforce(reqs[i].clone()).unwrap()
+    } else {
+        let ctx = casbin::EnforceContext { r_type: "r".into(), p_type: "p".into(), e_type: "e".into(), m_type: "m2".into() };
+        e.enforce_with_context(ctx, reqs[i - n].clone()).unwrap()
+    }
+}
+
 fn run<E: Enf>(mk: impl Fn(&tokio::runtime::Runtime) -> E, threads: usize, writer: bool, handle_mode: u8, seed: u64, iters: usize) -> String {
     // a hung case leaves blocked threads behind; later cases of this process are not meaningful
     if HUNG.load(Ordering::SeqCst) {
@@ -84,10 +95,10 @@ fn run<E: Enf>(mk: impl Fn(&tokio::runtime::Runtime) -> E, threads: usize, write
     let mut oracle: Vec<Vec<bool>> = vec![];
     {
         let mut e = mk(&rt);
-        oracle.push(reqs.iter().map(|r| e.enforce(r.clone()).unwrap()).collect());
+        oracle.push((0..2 * reqs.len()).map(|i| decide(&e, &reqs, i)).collect());
         for op in &hist {
             apply(&rt, &mut e, op);
-            oracle.push(reqs.iter().map(|r| e.enforce(r.clone()).unwrap()).collect());
+            oracle.push((0..2 * reqs.len()).map(|i| decide(&e, &reqs, i)).collect());
         }
     }
     let shared = Arc::new(RwLock::new(mk(&rt)));
@@ -103,10 +114,11 @@ fn run<E: Enf>(mk: impl Fn(&tokio::runtime::Runtime) -> E, threads: usize, write
         hs.push(std::thread::spawn(move || {
             let mut lastp = 0usize;
             for _ in 0..iters {
-                let i = (lcg(&mut st) as usize) % reqs.len();
+                // plain and context-qualified requests (another matcher over the same sections) interleave
+                let i = (lcg(&mut st) as usize) % (2 * reqs.len());
                 let d = {
                     let g = shared.read().unwrap();
-                    g.enforce(reqs[i].clone()).unwrap()
+                    decide(&*g, &reqs, i)
                 };
                 // the decision must be the serial decision of SOME prefix state not older than the last one this thread saw
                 let mut okp = None;
@@ -197,7 +209,7 @@ fn run<E: Enf>(mk: impl Fn(&tokio::runtime::Runtime) -> E, threads: usize, write
     }
     // final state = serial end state
     let g = shared.read().unwrap();
-    let fin: Vec<bool> = reqs.iter().map(|r| g.enforce(r.clone()).unwrap()).collect();
+    let fin: Vec<bool> = (0..2 * reqs.len()).map(|i| decide(&*g, &reqs, i)).collect();
     if fin != *oracle.last().unwrap() {
         return "BAD final".to_string();
     }
